@@ -18,7 +18,7 @@ from vlib import sqlo
 
 PROP = 'C13'
 META = {
-    'extractors': [],
+    'extractors': ['graph'],
     'technique': ('Lean 4 proof (stable insertion sort: permutation + lexicographic sortedness + stability for every key list; '
                   'multiset symmetry of the two sides of a link table; add/remove/accessor algebra) + differential correspondence on histories'),
     'level_text': ('Theorems C13_*: for every stored relation (hence after every history) the one-to-many accessors return exactly '
@@ -30,7 +30,9 @@ META = {
                    'without ORDER BY); CPython list.sort stability (cross-checked on every list-flavoured result).'),
     'rule': ('case = one history step (schema, op prefix); every accessor of every live object is checked after it; distinct = distinct '
              '(schema, history prefix); non-trivial = some accessor returned a non-empty result'),
-    'trusted': ['Model/Joins.lean mirrors joins.py performJoin/add/remove/doSort and dbconnection._SO_intermediate* by hand (tied by the correspondence run)',
+    'trusted': ['the link-table statements (_SO_intermediateInsert/Delete/Join templates and the way SORelatedJoin.add/remove/performJoin call them) '
+                'are read from the AST into Extracted/Graph.lean; related/addLink/removeLink interpret the extracted (column, value) lists',
+                'Model/Joins.lean mirrors doSort, SingleJoin and MultipleJoin by hand (tied by the correspondence run)',
                 'SQL ORDER BY is specified as "some sorted permutation" (ties unspecified); SQLite is observed, not verified'],
     'modelled': ['SQLite (row order without ORDER BY = rowid order; NULLS FIRST ascending)', 'CPython list.sort (stable, reverse keeps ties in order)'],
     'assumptions': ['orderBy items are attribute names with optional "-" (no SQL expressions)', 'ids are integers; objects are not per-connection instances'],
